@@ -218,6 +218,11 @@ func recvTypeOf(f *ssa.Function) types.Type {
 	return nil
 }
 
+// mutexGuardedCaches: caches whose read-modify-write must be serialised (confirmed by reading).
+var mutexGuardedCaches = map[string]string{
+	"proto.typesCache": "proto.Type values are comparable identities handed to callers; two concurrent misses must not publish two different Types for one Go type",
+}
+
 func runCOW(c *core.Ctx) []core.Obligation {
 	b := newOb(c, "R-COW", "C09")
 	fns := repoSSAFuncs(c)
@@ -487,6 +492,10 @@ func runCOW(c *core.Ctx) []core.Obligation {
 					}
 				}
 			}
+		}
+		gname := s.g.Pkg.Pkg.Name() + "." + s.g.Name()
+		if why, must := mutexGuardedCaches[gname]; must && lock == nil {
+			b.bad(key+":mutex", c.InstrPos(s.call), fmt.Sprintf("%s publishes %s without holding a mutex: %s", shortName(s.fn), gname, why))
 		}
 		if lock != nil {
 			k2 := key + ":mutex"
